@@ -1,12 +1,15 @@
 import KafVerif.Model.LfsResolve
+import KafVerif.Model.LfsIceberg
 import KafVerif.Prelude.Driver
-open KafVerif KafVerif.LfsResolve
+open KafVerif KafVerif.LfsResolve KafVerif.LfsIceberg
 
 /-! C30 driver.  Ops (strings in hex, `-` = empty; everything after `|` is the hash table
 `<blob> <sha256> <md5> <crc32>` … supplied by the check, so that `H` is a lookup):
 `resolve <max> <validate> <nil|err|ok> <payload> (env <ver> <bucket> <key> <sha> <cksum> <alg> | raw <value>)`
 `unwrap <validate> <err|ok> <payload> (env … | raw …)`
-`download <presign> <maxBlob> <mode> <none|some> <sha> <alg> <size> <missing|body|bodyerr> <obj>` -/
+`download <presign> <maxBlob> <mode> <none|some> <sha> <alg> <size> <missing|body|bodyerr> <obj>`
+`ice <ok|nil> {M <mode> <max> <meta> <1|0|d> <conc>}+ {K <key> <ok|err> <blob>}* {C <mapping> {R (env <ver> <bucket> <key> <sha> <cksum> <alg> <size> | raw <value> - - - - - -)}*}*`
+  one iceberg Processor (mappings M, shared store K), then `resolveLfsRecords` calls C in the given order -/
 
 def splitBar (ws : List String) : List String × List String :=
   (ws.takeWhile (· ≠ "|"), (ws.dropWhile (· ≠ "|")).drop 1)
@@ -40,10 +43,81 @@ def showResp : Resp → String
   | .presigned sha size => s!"presigned sha={toHex sha} size={size}"
   | .bytes b => s!"bytes {toHex b}"
 
+/-- split a token list at every occurrence of `sep` (the separators are dropped) -/
+def splitTok (sep : String) : List String → List (List String)
+  | [] => [[]]
+  | w :: rest =>
+    match splitTok sep rest with
+    | [] => [[w]]          -- unreachable
+    | cur :: more => if w == sep then [] :: cur :: more else (w :: cur) :: more
+
+def iceMode (s : String) : LMode :=
+  if s == "off" then .off else if s == "resolve" then .resolve else if s == "reference" then .reference
+  else if s == "skip" then .skip else if s == "hybrid" then .hybrid else .other
+
+def iceMapping : List String → Option LfsCfg
+  | [mode, max, _meta, val, _conc] => do          -- store_metadata / resolve_concurrency are not inputs of the decision
+    let max ← max.toInt?
+    pure ⟨iceMode mode, max, if val == "d" then none else some (val == "1")⟩
+  | _ => none
+
+def iceKey : List String → Option (Bytes × Option Bytes)
+  | [k, kind, blob] => do
+    let k ← fromHex k
+    let blob ← fromHex blob
+    pure (k, if kind == "ok" then some blob else none)
+  | _ => none
+
+def iceRec : List String → Option Rec
+  | ["raw", v, _, _, _, _, _, _] => (fromHex v).map fun v => ⟨.raw v, 0⟩
+  | ["env", ver, bucket, key, sha, ck, alg, size] => do
+    let ver ← ver.toInt?
+    let size ← size.toInt?
+    pure ⟨.env ⟨ver, ← fromHex bucket, ← fromHex key, ← fromHex sha, ← fromHex ck, ← fromHex alg⟩, size⟩
+  | _ => none
+
+def iceCall : List String → Option (Nat × List Rec)
+  | ws =>
+    match splitTok "R" ws with
+    | [m] :: recs => do
+      let m ← m.toNat?
+      let recs ← recs.mapM iceRec
+      pure (m, recs)
+    | _ => none
+
+def showRecOut : RecOut × Nat → String
+  | (.kept, i) => s!"{i}:k"
+  | (.blob b, i) => s!"{i}:b={toHex b}"
+  | (.dropped, i) => s!"{i}:dropped"
+  | (.fail, i) => s!"{i}:fail"
+
+def showCall : CallOut → String
+  | .err => "err"
+  | .ok outs => " ".intercalate ("ok" :: outs.map showRecOut)
+
+def iceLine (H : Alg → Bytes → Bytes) (ws : List String) : String :=
+  match splitTok "C" ws with
+  | head :: calls =>
+    match splitTok "K" head with
+    | mhead :: keys =>
+      match splitTok "M" mhead with
+      | [s3k] :: maps =>
+        match maps.mapM iceMapping, keys.mapM iceKey, calls.mapM iceCall with
+        | some maps, some keys, some calls =>
+          -- the shared reader: an unknown key and a scripted failure are both a fetch error
+          let fetch : Bytes → Option Bytes := fun k => (keys.find? (fun e => e.1 == k)).bind (·.2)
+          let p : Proc := ⟨if s3k == "nil" then none else some fetch, maps⟩
+          "ice " ++ " ; ".intercalate ((runWith perMapping H p ⟨none⟩ calls).2.map showCall)
+        | _, _, _ => "bad-op"
+      | _ => "bad-op"
+    | _ => "bad-op"
+  | _ => "bad-op"
+
 def stepLine (_ : Unit) (ws0 : List String) : Unit × String :=
   let (ws, tab) := splitBar ws0
   let H := mkH (table tab)
   match ws with
+  | "ice" :: rest => ((), iceLine H rest)
   | "resolve" :: max :: validate :: s3k :: payload :: rest =>
     match max.toInt?, fromHex payload, value rest with
     | some max, some payload, some v =>
